@@ -2,6 +2,6 @@ SPECIFICATION Spec
 CONSTANTS
  Hs = {h1, h2}
  Threads = 1
- Dev = {"sync_remove"}
+ Dev = {"held", "sync_remove"}
 INVARIANTS NeverStuck
 CHECK_DEADLOCK FALSE
